@@ -4,8 +4,8 @@ import vlib
 
 META = {
     "category": "proof",
-    "text": "Lean: a generic coder framework (Coder, runSliced, ByteMachine) with the theorem that every coder obtained from a byte machine gives the same concatenated output, final status and consumed count under any two fair slicings; chunk-faithful models of the small resumable coders of liblzma (lzma_vli_decode/encode with vli_pos, the lzma_bufcpy field reader, simple_code() buffering with an abstract BCJ filter, delta, the LZMA2 chunk-header machine) proved equal to their whole-buffer meaning for every split. Tie and direct oracle: every public coder of liblzma (all decoders incl. threaded, all encoders incl. threaded) is run in-process on the same input under whole-buffer, byte-at-a-time with empty calls, every two-piece input/output split and random slicings; output bytes, final lzma_ret, total_in/total_out and informational return codes must be identical; encoders additionally across thread counts, timeouts and struct vs string filter chains; tiny output windows (1,2,3,5,7 bytes per call); a seeded half of the cases on a re-initialised handle (no lzma_end) last used by another coder, after runs that ended in success, error or were abandoned mid-stream. The small-coder models (VLI, field reader, simple_code with a test filter, delta, Index decoder machine, LZMA2 chunk-header machine) are run against the real functions call by call.",
-    "note": "Trusted: Lean kernel + propext/Classical.choice/Quot.sound; harness/c06_*.c (generic run_sliced driver); the C compiler; ASan/UBSan observe memory errors at run time only. The LZMA symbol decoder's ~25 SEQ_* resume points and the encoders are NOT modelled: for them the property is checked by the C-vs-C slicing oracle only. MT-encoder determinism under all schedules is stated (mt_encoder_deterministic_statement) and deferred to C08; here it is exercised over thread counts/timeouts/OS schedules.",
+    "text": "PROVED in Lean (Props/C06.lean, about models): (1) generic: every coder that is the image of a byte machine gives the same concatenated output, final lzma_ret, consumed count and final state under any two fair slicings (any number of (avail_in, avail_out) pieces, empty calls included); unfair slicings are prefix-consistent. (2) instances, each by a call-by-call simulation theorem chunk-faithful coder = ofByteMachine(machine): lzma_vli_decode with persistent vli_pos (what every slicing computes = the specification decoder vliDecode), the lzma_bufcpy fixed-size field reader, the LZMA2 chunk-header sequence machine (event trace identical under all slicings; LZMA payload and dictionary abstract), the Index decoder sequence machine (same Records/CRC32/verdict). Delta: encoder reading the caller's input under arbitrary slicings = Delta.encode of the whole buffer; delta encoder AND decoder behind ANY next coder = the next coder's run with the output transformed as one stream. lzma_vli_encode: two-window split lemma only. (3) simple_code(): for every filter satisfying the BCJ contract the output under every slicing is a prefix of / at LZMA_STREAM_END equal to the filter applied once to the whole input; the contract is PROVED for the eight real filter models x86 (with carried prev_mask/prev_pos; inputs < 4 GiB - 5), powerpc, ia64, arm, armthumb, sparc, arm64, riscv, encoder and decoder, from C15's chunk-stability theorems; the C06 model of simple_code() is proved equal call by call to C15's model Simple.simpleCode (the one C15 ties to the C function with the real filters), and the slicing theorem is stated for that model with no hypothesis left (next.code == NULL or pass-through next coder). (4) threaded encoder: every finished run of C08's transition system (any thread count >= 1, timeout, schedule, slicing of lzma_code calls) writes the same bytes as a function of (input, block_size, flush offsets, accepted lzma_filters_update calls) - from C08.mtenc_deterministic/mtenc_output plus a filter-chain invariant. CORRESPONDENCE ONLY (model vs real function call by call, this check): vliDecodeMulti/vliEncodeMulti, fieldCoder, Coder.simpleCode with a test filter (null next and stub next coders), delta, ixFeed, l2Feed. ORACLE ONLY (C vs C, no model): every public coder of liblzma (all decoders incl. threaded, all encoders incl. threaded) on the same input under whole-buffer, byte-at-a-time with empty calls, every two-piece input/output split and random slicings - output bytes, final lzma_ret, total_in/total_out and informational return codes must be identical; encoders additionally across thread counts, timeouts and struct vs string filter chains; tiny output windows (1,2,3,5,7 bytes per call); a seeded half of the cases on a re-initialised handle (no lzma_end) last used by another coder, after runs that ended in success, error or were abandoned mid-stream.",
+    "note": "Trusted: Lean kernel + propext/Classical.choice/Quot.sound (+ the bv_decide certificates of Lemmas/BitWords* inherited from C15's x86 lemmas); harness/c06_*.c (generic run_sliced driver); the C compiler; ASan/UBSan observe memory errors at run time only. No theorem is about the C text: the tie of the models to the code is the call-by-call correspondence of this check (small coders) and of C15 (simple_code with the real filters) and C08 (MT encoder traces). NOT modelled, hence covered by the C-vs-C slicing oracle only: the LZMA symbol decoder's ~25 SEQ_* resume points, the LZ window, the LZMA/LZMA2 encoders and fill_window, the container coders (stream/block/alone/lzip/auto decoders and encoders), simple_code() behind a real (non-pass-through) next coder, n-piece lzma_vli_encode. MT determinism is a theorem about the transition-system model of stream_encoder_mt.c (Block encoding abstract); on the real code it is exercised over thread counts/timeouts/OS schedules.",
     "technique": "Lean 4 proof over an executable model + differential slicing oracle on the implementation",
 }
 
